@@ -245,6 +245,10 @@ func NewSolver(timeoutMs int) *Solver {
 }
 
 func (s *Solver) precise() *proc {
+	if s.prec != nil && s.prec.dead {
+		s.prec.close()
+		s.prec = nil
+	}
 	if s.prec == nil {
 		s.prec = newProc(preciseBin, false, s.TimeoutMs)
 	}
